@@ -468,3 +468,8 @@ def run(facts, rep, tier):
              "behind the code actions recurse over the untouched children only.")
     from . import c03
     c03.rule_r2b(facts, rep, "C12-R8")
+    rep.rule("C12-R9", "= C09-R2 / C10-R2: the tree transformers behind the code actions stop at the target (`if id_eq(target) { replacement } else { recurse }`): descending "
+             "into the replacement recurses forever when it contains the target.")
+    from . import c09 as _c09, c10 as _c10
+    _c09.rule_r2(facts, rep, "C12-R9")
+    _c10.rule_r2(facts, rep, "C12-R9b")
